@@ -7,6 +7,7 @@
 import Nuts.Model.Tx
 import Nuts.Spec.DB
 import NutsProofs.Lemmas.BPTreeRefine
+import NutsProofs.Lemmas.Paging
 namespace NutsProofs.C03
 open Nuts Nuts.Model Nuts.Model.DB
 
@@ -75,5 +76,228 @@ theorem C03_tree_prefix_scan_is_walk (t : Tree Idx) (h : Tree.WF t) (pre : Bytes
     ((Tree.prefixScan t pre off lim mt).1.map (·.2), (Tree.prefixScan t pre off lim mt).2) =
       prefixWalk t.toList pre off lim mt :=
   Tree.prefixScan_eq_walk t h pre off lim mt
+
+/-! ### paging against the spec, when no dead record has the prefix
+
+The statement of C03 is false of the code (finding D-SCAN-DEAD: a tombstone or an expired record with the
+prefix consumes offset and limit). What does hold, for every history: when no record with the prefix is dead
+at the time of the call, `PrefixScan(prefix, offset, limit)` is exactly the spec's page of the live pairs
+with the prefix, and `PrefixSearchScan` with offset 0 the page of those that match. -/
+
+open NutsProofs.KVRefine in
+/-- the (key, value) pair an index entry shows -/
+def pairOf (p : Bytes × Idx) : Bytes × Bytes := (p.1, p.2.r.value)
+
+open NutsProofs.KVRefine in
+theorem live_pairs_nodead (l : Assoc Idx) (now : Nat) (hok : IdxOk l) (hn : now < 2 ^ 64)
+    (hnd : ∀ p ∈ l, dead p.2.r now = false) : liveBucket (absBucket l) now = l.map pairOf := by
+  rw [liveBucket_abs]
+  induction l with
+  | nil => rfl
+  | cons p rest ih =>
+    obtain ⟨hfl, hbd, _⟩ := hok p (by simp)
+    have hd := dead_iff p.2 now hfl hbd hn
+    rw [hnd p (by simp)] at hd
+    have hkeep : (isSet (([] : Bytes), p.2) && Nuts.Spec.DB.live now (skvOf p.2)) = true := by
+      cases hc : (isSet (([] : Bytes), p.2) && Nuts.Spec.DB.live now (skvOf p.2)) <;> simp [hc] at hd ⊢
+    have hsame : isSet p = isSet (([] : Bytes), p.2) := rfl
+    simp only [List.filterMap_cons, livePick, hsame, hkeep, if_true, List.map_cons, pairOf]
+    rw [ih (fun q hq => hok q (by simp [hq])) (fun q hq => hnd q (by simp [hq]))]
+
+/-- drop `offset`, keep the matching ones, take `limit` when it is positive -/
+def pageSel {β} (off lim : Int) (mt : Bytes → Bool) (l : List (Bytes × β)) : List (Bytes × β) :=
+  if lim > 0 then ((l.drop off.toNat).filter fun p => mt p.1).take lim.toNat else (l.drop off.toNat).filter fun p => mt p.1
+
+theorem pageSel_map (off lim : Int) (mt : Bytes → Bool) (l : List (Bytes × Idx)) :
+    pageSel off lim mt (l.map pairOf) = (pageSel off lim mt l).map pairOf := by
+  have hf : ∀ l : List (Bytes × Idx), (l.map pairOf).filter (fun x => mt x.1) = (l.filter fun p => mt p.1).map pairOf := by
+    intro l; rw [List.filter_map]; rfl
+  unfold pageSel
+  split
+  · rw [← List.map_drop, hf, ← List.map_take]
+  · rw [← List.map_drop, hf]
+
+theorem pageSel_subset {β} (off lim : Int) (mt : Bytes → Bool) (l : List (Bytes × β)) : ∀ p ∈ pageSel off lim mt l, p ∈ l := by
+  intro p hp
+  unfold pageSel at hp
+  have : p ∈ (l.drop off.toNat).filter fun p => mt p.1 := by
+    split at hp
+    · exact List.mem_of_mem_take hp
+    · exact hp
+  exact List.mem_of_mem_drop (List.mem_filter.mp this).1
+
+theorem pageSel_length {β} (off lim : Int) (hl : lim > 0) (mt : Bytes → Bool) (l : List (Bytes × β)) :
+    (pageSel off lim mt l).length ≤ lim.toNat := by
+  unfold pageSel; simp only [hl, if_true]; exact List.length_take_le _ _
+
+open NutsProofs.KVRefine in
+theorem pairsOf_entries (sel : List (Bytes × Idx)) (hok : IdxOk sel) :
+    pairsOf ((sel.map (·.2)).map fun i => some i.r) = sel.map pairOf := by
+  induction sel with
+  | nil => rfl
+  | cons q rest ih =>
+    have hk := (hok q (by simp)).2.2
+    simp only [List.map_cons, pairsOf, List.filterMap_cons, Option.map_some, pairOf]
+    rw [hk]
+    congr 1
+    exact ih (fun x hx => hok x (by simp [hx]))
+
+open NutsProofs.KVRefine in
+/-- the tail of a scan on a selection without dead records that fits the limit: everything is returned -/
+theorem scan_tail_nodead (s : State) (hm : s.opt.mode = 0) (now : Nat) (lim : Int) (sel : List (Bytes × Idx))
+    (hok : IdxOk sel) (hnd : ∀ p ∈ sel, dead p.2.r now = false)
+    (hlim : lim = -1 ∨ (lim > 0 ∧ sel.length ≤ lim.toNat)) :
+    (if (sel.map (·.2)).isEmpty then (Outcome.err : Outcome (List (Option Rec)))
+      else nonEmptyOrErr (wrapper s (sel.map (·.2)) lim now)).map pairsOf =
+      if sel.map pairOf = [] then .err else .ok (sel.map pairOf) := by
+  cases hsel : sel with
+  | nil => rfl
+  | cons q qs =>
+    rw [← hsel]
+    have hne : sel ≠ [] := by rw [hsel]; simp
+    have hnd' : ∀ i ∈ sel.map (·.2), dead i.r now = false := by
+      intro i hi
+      obtain ⟨p, hp, rfl⟩ := List.mem_map.mp hi
+      exact hnd p hp
+    have hwr : wrapper s (sel.map (·.2)) lim now = .ok ((sel.map (·.2)).map fun i => some i.r) := by
+      rcases hlim with hl | ⟨hl, hlen⟩
+      · subst hl
+        rw [wrapper_all s hm now (sel.map (·.2)) []]
+        have hfil : ((sel.map (·.2)).filter fun i => !dead i.r now) = sel.map (·.2) := by
+          rw [List.filter_eq_self]; intro i hi; simp [hnd' i hi]
+        rw [hfil]; rfl
+      · have hw := wrapper_nodead s hm now lim.toNat (by omega) (sel.map (·.2)) hnd' []
+        have hcast : ((lim.toNat : Nat) : Int) = lim := by omega
+        rw [hcast] at hw
+        rw [hw]
+        simp only [List.nil_append, List.length_nil, Nat.sub_zero]
+        rw [List.take_of_length_le (by simpa using hlen)]
+    rw [hwr]
+    have he : (sel.map (·.2)).isEmpty = false := by rw [hsel]; rfl
+    have hmne : sel.map pairOf ≠ [] := by rw [hsel]; simp
+    simp only [he, Bool.false_eq_true, if_false, hmne]
+    have hn2 : ((sel.map (·.2)).map fun i => some i.r) ≠ [] := by rw [hsel]; simp
+    have : nonEmptyOrErr (Outcome.ok ((sel.map (·.2)).map fun i => some i.r)) = Outcome.ok ((sel.map (·.2)).map fun i => some i.r) := by
+      cases hx : ((sel.map (·.2)).map fun i => some i.r) with
+      | nil => exact absurd hx hn2
+      | cons _ _ => rfl
+    rw [this]
+    simp only [Outcome.map]
+    rw [pairsOf_entries sel hok]
+
+open NutsProofs.KVRefine NutsProofs.PrefixRefine NutsProofs.Paging in
+/-- **C03 (partial: no dead record with the prefix), bucket level, key+value mode.** -/
+theorem prefixScan_page_nodead (s : State) (hm : s.opt.mode = 0) (b : Bytes) (m : Assoc Idx) (hb : bucketIdx s b = some m)
+    (hs : Sorted m) (pre : Bytes) (off lim : Int) (hoff : 0 ≤ off) (hlim : lim > 0 ∨ lim = -1) (mt : Bytes → Bool)
+    (now : Nat) (hok : IdxOk m) (hn : now < 2 ^ 64)
+    (hnd : ∀ p ∈ m, hasPrefix p.1 pre = true → dead p.2.r now = false) :
+    (prefixScan s b pre off lim now mt).map pairsOf =
+      let sel := pageSel off lim mt ((liveBucket (absBucket m) now).filter fun x => hasPrefix x.1 pre)
+      if sel = [] then .err else .ok sel := by
+  -- the block of index entries with the prefix, all of them live
+  have hblockok : IdxOk (m.filter fun p => hasPrefix p.1 pre) := fun q hq => hok q (List.mem_filter.mp hq).1
+  have hblocknd : ∀ p ∈ m.filter (fun p => hasPrefix p.1 pre), dead p.2.r now = false :=
+    fun p hp => hnd p (List.mem_filter.mp hp).1 (by simpa using (List.mem_filter.mp hp).2)
+  have hlive : (liveBucket (absBucket m) now).filter (fun x => hasPrefix x.1 pre) = (m.filter fun p => hasPrefix p.1 pre).map pairOf := by
+    rw [← live_filter_keys m now (fun k => hasPrefix k pre)]
+    exact live_pairs_nodead _ now hblockok hn hblocknd
+  simp only [hlive, pageSel_map]
+  have hsub := pageSel_subset off lim mt (m.filter fun p => hasPrefix p.1 pre)
+  have hselok : IdxOk (pageSel off lim mt (m.filter fun p => hasPrefix p.1 pre)) := fun q hq => hblockok q (hsub q hq)
+  have hselnd : ∀ p ∈ pageSel off lim mt (m.filter fun p => hasPrefix p.1 pre), dead p.2.r now = false :=
+    fun p hp => hblocknd p (hsub p hp)
+  have hfit : lim = -1 ∨ (lim > 0 ∧ (pageSel off lim mt (m.filter fun p => hasPrefix p.1 pre)).length ≤ lim.toNat) := by
+    rcases hlim with hl | hl
+    · exact Or.inr ⟨hl, pageSel_length off lim hl mt _⟩
+    · exact Or.inl hl
+  have := scan_tail_nodead s hm now lim _ hselok hselnd hfit
+  -- what the scan computes is that tail on that selection
+  unfold prefixScan prefixWalk
+  rw [hb]
+  simp only []
+  rw [walk_eq_filter pre m hs, go_page off lim hoff mt _]
+  exact this
+
+open NutsProofs.Reopen NutsProofs.KVRefine NutsProofs.Hints in
+/-- **C03 (partial, every history, both RAM index modes).** After any history of key/value transactions and
+reopens, if no record of bucket `b` whose key has the prefix is dead (deleted or expired) at the time of the
+call, then `PrefixScan(prefix, offset, limit)` with `offset ≥ 0` and `limit > 0` or `limit = -1` is the spec's
+page: the live pairs with the prefix in ascending order, the first `offset` skipped, then — the matching
+ones, for `PrefixSearchScan`, which the property considers with offset 0 — at most `limit` of them; an error
+exactly when the page is empty. With a dead record in the block this fails: `C03_witness_tombstone_consumes_limit`
+(finding D-SCAN-DEAD). -/
+theorem C03_page_refines_spec_nodead (opt0 : Opts) (ops : List Op) (hok : OpsOk (openDB opt0 []).1 ops)
+    (hrec : OpsRecOk ops) (now : Nat) (hn : now < 2 ^ 64) (b pre : Bytes)
+    (off lim : Int) (hoff : 0 ≤ off) (hlim : lim > 0 ∨ lim = -1) (mt : Bytes → Bool)
+    (hnd : ∀ m, bucketIdx (ops.foldl stepOp (openDB opt0 []).1) b = some m →
+      ∀ p ∈ m, hasPrefix p.1 pre = true → dead p.2.r now = false) :
+    let s := ops.foldl stepOp (openDB opt0 []).1
+    let spec : Nuts.Spec.DB.SpecDB := { kv := specOfOps ops }
+    let page := pageSel off lim mt ((Nuts.Spec.DB.liveOf spec b now).filter fun x => hasPrefix x.1 pre)
+    (prefixScan s b pre off lim now mt).map pairsOf = if page = [] then .err else .ok page := by
+  intro s spec page
+  have hinv : LogInv s := logInv_ops ops _ (logInv_init opt0) hok
+  have hpk : Packed s := packed_ops ops _ (logInv_init opt0) (packed_init opt0) hok
+  have hlog : (allRecs s.files).map (·.1) = logOf ops := by
+    have h0 : (allRecs (openDB opt0 []).1.files).map (·.1) = [] := by simp [openDB, fileEnsure, allRecs]
+    have := log_of_ops ops _ (logInv_init opt0) hok
+    rw [h0, List.nil_append] at this
+    exact this
+  have hlogok : ∀ r ∈ logOf ops, RecOk r := logOf_recOk ops hrec
+  have hL : ∀ x ∈ allRecs s.files, RecOk x.1 := by
+    intro x hx
+    apply hlogok
+    rw [← hlog]; exact List.mem_map.mpr ⟨x, hx, rfl⟩
+  obtain ⟨hsorted, habs, hidx, _⟩ := kvOfLog_props (allRecs s.files) hL
+  -- through the key+value twin with the log's index verbatim
+  obtain ⟨_, _, _, hp⟩ := reads_mode_independent s hinv hpk
+  have hr2 := rebuilt_normState (withMode0 s)
+  rw [← pairs_visL, hp b pre off lim now mt, ← prefixScan_rebuilt hr2 b pre off lim now mt, pairs_visL]
+  have hkv : (normState (withMode0 s)).kv = kvOfLog (allRecs s.files) := hinv.idx
+  have hspec : specOfLog ((allRecs s.files).map (·.1)) = specOfOps ops := by rw [hlog]; exact specOfLog_logOf ops []
+  have hA : aget? (specOfOps ops) b = (aget? (kvOfLog (allRecs s.files)) b).map absBucket := by
+    rw [← hspec]; unfold specOfLog; rw [← habs]; exact Reopen.aget_map absBucket _ b
+  cases hbk : aget? (kvOfLog (allRecs s.files)) b with
+  | none =>
+    have hb' : bucketIdx (normState (withMode0 s)) b = none := by unfold bucketIdx; rw [hkv]; exact hbk
+    have hlive : Nuts.Spec.DB.liveOf spec b now = [] := by
+      show liveBucket ((aget? (specOfOps ops) b).getD []) now = []
+      rw [hA, hbk]; rfl
+    have hpage : page = [] := by
+      show pageSel off lim mt ((Nuts.Spec.DB.liveOf spec b now).filter _) = []
+      rw [hlive]; unfold pageSel; split <;> simp
+    unfold prefixScan
+    rw [hb', hpage]
+    rfl
+  | some m =>
+    have hb' : bucketIdx (normState (withMode0 s)) b = some m := by unfold bucketIdx; rw [hkv]; exact hbk
+    have hlive : Nuts.Spec.DB.liveOf spec b now = liveBucket (absBucket m) now := by
+      show liveBucket ((aget? (specOfOps ops) b).getD []) now = _
+      rw [hA, hbk]; rfl
+    -- the hypothesis about dead records, carried to the normalised bucket
+    have hnd' : ∀ p ∈ m, hasPrefix p.1 pre = true → dead p.2.r now = false := by
+      intro p hp hpre
+      -- `m` is the normalised bucket of `s`
+      have hbs : bucketIdx s b = (bucketIdx s b) := rfl
+      cases hsb : bucketIdx s b with
+      | none =>
+        have : aget? (normKV s.kv) b = none := by
+          unfold normKV; rw [Reopen.aget_map normBucket]; unfold bucketIdx at hsb; rw [hsb]; rfl
+        rw [show normKV s.kv = kvOfLog (allRecs s.files) from hinv.idx, hbk] at this
+        cases this
+      | some m0 =>
+        have : aget? (normKV s.kv) b = some (normBucket m0) := by
+          unfold normKV; rw [Reopen.aget_map normBucket]; unfold bucketIdx at hsb; rw [hsb]; rfl
+        rw [show normKV s.kv = kvOfLog (allRecs s.files) from hinv.idx, hbk] at this
+        have hm0 : m = normBucket m0 := Option.some.inj this
+        rw [hm0] at hp
+        unfold normBucket at hp
+        obtain ⟨p0, hp0, rfl⟩ := List.mem_map.mp hp
+        exact hnd m0 hsb p0 hp0 hpre
+    have := prefixScan_page_nodead (normState (withMode0 s)) rfl b m hb' (hsorted b m hbk) pre off lim hoff hlim mt now
+      (fun p hp => hidx b m p hbk hp) hn hnd'
+    rw [this]
+    show (if pageSel off lim mt ((liveBucket (absBucket m) now).filter _) = [] then _ else _) = _
+    rw [← hlive]
 
 end NutsProofs.C03
